@@ -1,7 +1,7 @@
 (* Property C13 — grouping returns the connected components of the similarity graph. *)
 From Coq Require Import List Arith Permutation Relations.
 From Coq Require Import ZArith QArith.
-From SE Require Import Misc.Components Misc.ComponentsProofs Base.Res Gen.Prelude Gen.Source Gen.SrcGroup.
+From SE Require Import Base.Res Gen.Prelude Gen.Source Gen.SrcGroup Misc.Components Misc.ComponentsProofs.
 Local Open Scope nat_scope.
 Import ListNotations.
 
@@ -105,6 +105,32 @@ Theorem C13_src_queries_once : forall evs,
   NoDup (map (fun p : (nat * Z) * (nat * Z) => (fst (fst p), fst (snd p))) (py_combinations2 (py_enumerate evs))).
 Proof. exact src_queries_once. Qed.
 Print Assumptions C13_src_queries_once.
+
+(* group_sound_events as written: for EVERY behaviour cc of scipy's connected_components it hands cc the adjacency
+   matrix above and groups the events by label in one pass (labels in order of first occurrence, events in input order) *)
+Theorem C13_src_group_sound_events : forall cmp cc evs,
+  Source.group_sound_events cmp cc evs = Ok (dd_values (combine (snd (cc (adjacency cmp evs))) evs)).
+Proof. exact src_group_sound_events. Qed.
+Print Assumptions C13_src_group_sound_events.
+
+Theorem C13_src_grouping_is_model_loop : forall cmp cc evs,
+  length (snd (cc (adjacency cmp evs))) = length evs ->
+  Source.group_sound_events cmp cc evs = Ok (map (map (ev evs)) (group_by_loop (snd (cc (adjacency cmp evs))))).
+Proof. exact src_group_sound_events_loop. Qed.
+Print Assumptions C13_src_grouping_is_model_loop.
+
+Theorem C13_src_with_model_components : forall cmp evs,
+  let n := length evs in
+  let cc := fun m : coo => (0, labels (Z.to_nat (coo_rows m)) (edges_of n (rel_on cmp evs))) in
+  Source.group_sound_events cmp cc evs = Ok (map (map (ev evs)) (group_by_loop (labels n (edges_of n (rel_on cmp evs))))).
+Proof. exact src_group_sound_events_model. Qed.
+Print Assumptions C13_src_with_model_components.
+
+Example C13_src_group_ex :
+  Source.group_sound_events (fun a b => Z.eqb (Z.abs (a - b)) 1) (fun m => (2, [0; 1; 0; 1; 0])) [10; 20; 11; 21; 12]%Z
+  = Ok [[10; 11; 12]; [20; 21]]%Z.
+Proof. exact src_group_ex. Qed.
+Print Assumptions C13_src_group_ex.
 
 Example C13_src_ex :
   Source.compute_similarity_matrix (fun a b => Z.eqb (Z.abs (a - b)) 1) [10; 20; 11; 21; 12]%Z
